@@ -50,6 +50,8 @@ func main() {
 		}
 	case "check":
 		os.Exit(cmdCheck(os.Args[2:]))
+	case "sweep":
+		os.Exit(cmdSweep(os.Args[2:]))
 	case "dump":
 		os.Exit(cmdDump(os.Args[2:]))
 	case "control":
@@ -111,6 +113,42 @@ func parseOpts(args []string) opts {
 		}
 	}
 	return o
+}
+
+// cmdSweep runs the quick tier of every property on one load of the tree (controls off) and prints one
+// summary line. It is a tool for the seeded-change matrix and the mutation sweep (tools/), not a registered check.
+func cmdSweep(args []string) int {
+	o := parseOpts(args)
+	o.tier = "quick"
+	var ids []string
+	for id := range props {
+		ids = append(ids, id)
+	}
+	sort.Strings(ids)
+	w, err := loadWorld(o.repo, nil)
+	var failed []string
+	for _, id := range ids {
+		spec := props[id]
+		start := time.Now()
+		c := newCtx(id, o.tier, o.seed, w)
+		if err == nil {
+			c.guard("META.RUN", func() { spec.Run(c) })
+		}
+		if c.finish(o.verif, spec, start, err) != 0 {
+			failed = append(failed, id)
+		}
+	}
+	fmt.Printf("SWEEP failed:%s\n", func() string {
+		s := ""
+		for _, f := range failed {
+			s += " " + f
+		}
+		return s
+	}())
+	if len(failed) > 0 {
+		return 1
+	}
+	return 0
 }
 
 func cmdCheck(args []string) int {
